@@ -500,3 +500,105 @@ def fold_filter_lemma():
         r = sol.check()
         out.append((nm, r == z3.unsat, time.time() - t0))
     return out
+
+
+# ------------------------------------------------------------------------------------------------ evaluate.tree: document-order concatenation
+_WC = z3.Function("node_warning_count", *_CS, I, I)          # ghost: number of warnings evaluate.node(n) returns (0 for None)
+_TWC = z3.Function("tree_warning_count", *_CS, I, I)
+_TWCK = z3.Function("tree_warning_count_first_children", *_CS, I, I, I)
+_WOWN = z3.Function("warning_owner", *_CS, I, I, I)           # ghost: the node the p-th warning of evaluate.tree(n) is about
+
+
+def install_tree_order(w):
+    """evaluate.tree against the document-order concatenation of the per-node warning lists.  evaluate.node enters by contract: None or a fresh
+    list of node_warning_count(n) triples about n (what the twelve evaluator contracts and the totality proof of evaluate.node establish)."""
+    EVT = EV + "tree"
+    EVN = EV + "node"
+    WC = lambda s, n: _WC(*s.cs, n)
+    TWC = lambda s, n: _TWC(*s.cs, n)
+    TWCK = lambda s, n, k: _TWCK(*s.cs, n, k)
+    WOWN = lambda s, n, p: _WOWN(*s.cs, n, p)
+
+    def node_ensures(s0, s, node, result):
+        j = z3.Int("ne_j")
+        L = Val.r(result)
+        e = s.at(L, j)
+        return {"none-or-list": z3.Or(z3.And(result == Val.none, WC(s0, node) == 0),
+                                      z3.And(Val.is_ref(result), L >= s0.top, L < s.top, kind(L) == KIND_LIST, s.len(L) == WC(s0, node),
+                                             smt.FA([j], z3.Implies(z3.And(0 <= j, j < s.len(L)), z3.And(Val.is_tupv(e), smt.TITEM(Val.tid(e), 2) == Val.ref(node))),
+                                                    patterns=[s.at(L, j)]))),
+                "nonneg": WC(s0, node) >= 0, "no-new-nodes": no_new_nodes(s0, s)}
+
+    node_con = Contract(EVN, params={"node": "Node"}, ensures=node_ensures, writes=(), mod=lambda s0, r, **kw: z3.BoolVal(False), allocates=True,
+                        result_ty="opt:list:val", modular=True, trusted=True,
+                        assumptions=("evaluate.node by contract: None or a fresh list of node_warning_count(n) (code, message, n) triples — the conclusion of the "
+                                     "evaluator contracts and of the totality proof of evaluate.node",))
+    w.add(node_con)
+
+    def requires(s, root, warnings):
+        m = z3.Int("rq_m")
+        return {"wf": wf_sub(s, root), "kids-typed": kids_typed(s),
+                "warnings-is-no-child-list": smt.FA([m], z3.Implies(s.is_node(m), s.kids(m) != warnings), patterns=[s.f("_children", m)])}
+
+    def own_def(s, n):
+        p, k = z3.Ints("wo_p wo_k")
+        ch = s.kid(n, k)
+        start = WC(s, n) + TWCK(s, n, k)
+        return z3.And(
+            smt.FA([p], z3.Implies(z3.And(0 <= p, p < WC(s, n)), WOWN(s, n, p) == n), patterns=[WOWN(s, n, p)]),
+            smt.FA([k, p], z3.Implies(z3.And(0 <= k, k < s.nkids(n), start <= p, p < WC(s, n) + TWCK(s, n, k + 1)), WOWN(s, n, p) == WOWN(s, ch, p - start)),
+                   patterns=[z3.MultiPattern(TWCK(s, n, k), WOWN(s, n, p))]))
+
+    def axioms(s, root, warnings):
+        d = tree_axioms(s, root)
+        d["twc"] = z3.And(TWC(s, root) == WC(s, root) + TWCK(s, root, s.nkids(root)), TWCK(s, root, 0) == 0, WC(s, root) >= 0)
+        d["own-def"] = own_def(s, root)
+        return d
+
+    def kept(s0, s, lst):
+        j = z3.Int("kp_j")
+        return z3.And(s.len(lst) >= s0.len(lst), smt.FA([j], z3.Implies(z3.And(0 <= j, j < s0.len(lst)), s.at(lst, j) == s0.at(lst, j)), patterns=[s.at(lst, j)]))
+
+    def ordered(s0, s, n, lst, count):
+        j = z3.Int("or_j")
+        n0 = s0.len(lst)
+        e = s.at(lst, j)
+        return smt.FA([j], z3.Implies(z3.And(n0 <= j, j < n0 + count), z3.And(Val.is_tupv(e), smt.TITEM(Val.tid(e), 2) == Val.ref(WOWN(s0, n, j - n0)))),
+                      patterns=[s.at(lst, j)])
+
+    def ensures(s0, s, root, warnings, result=None):
+        return {"top:as-many-as-the-nodes-have": z3.And(TWC(s0, root) >= 0, s.len(warnings) == s0.len(warnings) + TWC(s0, root)),
+                "top:earlier-entries-kept": kept(s0, s, warnings),
+                "top:per-node-lists-concatenated-in-document-order": ordered(s0, s, root, warnings, TWC(s0, root)),
+                "no-new-nodes": no_new_nodes(s0, s)}
+
+    def inv(s0, s, v):
+        n, lst = v.root, v.warnings
+        sofar = WC(s0, n) + TWCK(s0, n, v._k)
+        return {"bound": v._k <= s0.nkids(n), "count": z3.And(TWCK(s0, n, v._k) >= 0, s.len(lst) == s0.len(lst) + sofar), "earlier-entries-kept": kept(s0, s, lst),
+                "document-order-so-far": ordered(s0, s, n, lst, sofar), "no-new-nodes": no_new_nodes(s0, s), "top": s.top >= s0.top}
+
+    def frames(s0, s):
+        m, p, k = z3.Ints("wf_m wf_p wf_k")
+        d = dict(tree_frame_steps(s0, s))
+        d["warning-ghost-frame"] = z3.And(
+            smt.FA([m], z3.Implies(s0.is_node(m), z3.And(WC(s, m) == WC(s0, m), TWC(s, m) == TWC(s0, m))), patterns=[WC(s, m)]),
+            smt.FA([m], z3.Implies(s0.is_node(m), TWC(s, m) == TWC(s0, m)), patterns=[TWC(s, m)]),
+            smt.FA([m, p], z3.Implies(s0.is_node(m), WOWN(s, m, p) == WOWN(s0, m, p)), patterns=[WOWN(s, m, p)]))
+        return d
+
+    def loop_axioms(s0, s, v):
+        ch = s0.kid(v.root, v._k)
+        d = {"kid-refl": SUB(s0, ch, ch), "twck-step": z3.And(TWCK(s0, v.root, v._k + 1) == TWCK(s0, v.root, v._k) + TWC(s0, ch), TWC(s0, ch) >= 0)}
+        d.update(frames(s0, s))
+        return d
+
+    only = {"llen": lambda s0, r, root, warnings: r == warnings, "lelem": lambda s0, r, root, warnings: r == warnings}
+    con = Contract(EVT, params={"root": "Node", "warnings": "list:val"}, requires=requires, axioms=axioms, ensures=ensures, writes=("llen", "lelem"), mods=only,
+                   mod=lambda s0, r, **kw: z3.BoolVal(False), allocates=True, result_ty="none", decreases=lambda s, root, **kw: H(s, root),
+                   assumptions=("T-unfold(node/tree_warning_count, warning_owner)", "T-frame(warning ghosts)"))
+    w.add(con)
+    w.loop(EVT, 1, inv=inv, axioms=loop_axioms, var_types={"child": "Node"})
+    w.call_lemmas[(EVT, EVT)] = lambda s0, s, v: frames(s0, s)
+    w.call_lemmas[(EVT, EVN)] = lambda s0, s, v: frames(s0, s)
+    return con
